@@ -37,7 +37,7 @@ Proof.
 Qed.
 
 Lemma dispatch_spec e : forall ks s, NoDup ks ->
-  obs (fst (dispatch s e ks)) = obs s ++ flat_map (fun k => [O_WRITE; N.of_nat k; wid e; elvl e]) (written s e ks) /\
+  obs (fst (dispatch s e ks)) = obs s ++ flat_map (fun k => [O_WRITE; N.of_nat k; wid e; elvl e; snamed e]) (written s e ks) /\
   snd (dispatch s e ks) = some_throws s e ks.
 Proof.
   induction ks as [|k r IH]; intros s ND; cbn [dispatch written some_throws flat_map].
@@ -48,7 +48,7 @@ Proof.
     + now rewrite app_nil_r.
     + match goal with |- context [dispatch ?s1 e r] => destruct (IH s1 ND') as [A B]; rewrite A, B end.
       assert (Hext : forall k', In k' r -> sk (add_obs (set_sk s (upd (sk s) k (bump_swrites (sk s k))))
-                                               [O_WRITE; N.of_nat k; wid e; elvl e]) k' = sk s k').
+                                               [O_WRITE; N.of_nat k; wid e; elvl e; snamed e]) k' = sk s k').
       { intros k' Hin. cbn. unfold upd. destruct (Nat.eqb_spec k' k) as [->|]; [contradiction|reflexivity]. }
       rewrite (written_ext _ _ _ _ Hext), (some_throws_ext _ _ _ _ Hext).
       cbn [obs add_obs set_sk]. rewrite <- app_assoc. split; reflexivity.
